@@ -429,7 +429,22 @@ pub fn build<K: Kind>(g: &PG, vars: &mut Vars) -> K {
         };
     }
     match g {
-        PG::Eq(a, b) => rel::eq::<DU, DE, K>(t!(a), t!(b)).cast_into(),
+        PG::Eq(a, b) => {
+            let e: K = rel::eq::<DU, DE, K>(t!(a), t!(b)).cast_into();
+            if CNT_MODE.with(|c| c.get()) == 2 {
+                // counter mode: a tick goal behind every `==` counts the unifications that succeeded on this path
+                use proto_vulcan::operator::fngoal::FnGoal;
+                use proto_vulcan::stream::Stream;
+                let tick: K = FnGoal::new::<K>(Box::new(move |_solver, mut state| {
+                    state.user_state.eq_goals += 1;
+                    Stream::unit(Box::new(state))
+                }))
+                .cast_into();
+                InferredConj::<DU, DE, K>::from_array(&[e, tick]).cast_into()
+            } else {
+                e
+            }
+        }
         PG::Neq(a, b) => rel::diseq::diseq::<DU, DE, K>(t!(a), t!(b)).cast_into(),
         PG::Succ => K::succeed(),
         PG::Fail => K::fail(),
@@ -581,6 +596,7 @@ pub struct ProbeRec {
     pub stored: usize,
     pub ext_calls: usize,
     pub ext_total: usize,
+    pub eq_goals: usize,
     pub smap_len: usize,
     pub terms: Vec<LT>,
 }
@@ -601,6 +617,7 @@ pub fn probe_goal<K: Kind>(last: bool, qvars: Vec<LT>) -> K {
             stored: state.cstore_ref().iter().count(),
             ext_calls: state.user_state.ext_calls,
             ext_total: state.user_state.ext_total,
+            eq_goals: state.user_state.eq_goals,
             smap_len: state.smap_ref().iter().count(),
             terms: qvars.iter().map(|q| state.smap_ref().walk_star(q)).collect(),
         };
